@@ -206,6 +206,11 @@ func c12(c *h.Ctx) {
 				via = "scheduler"
 			}
 			add(cancelSpec{K: k, W: k - 1, Mode: mode, Point: "during-condition", Cancels: "once", Via: via, Cmd: "sleep"})
+			// a condition that handles the interrupt and leaves with a status of its own has still answered nothing
+			add(cancelSpec{K: k, W: k - 1, Mode: mode, Point: "during-condition", Cancels: "once", Via: via, Cmd: "trap-exit", Jitter: 400000})
+			if k == 1 {
+				add(cancelSpec{K: k, W: 0, Mode: mode, Point: "during-command", Cancels: "once", Via: via, Cmd: "trap-exit", Jitter: 400000})
+			}
 		}
 	}
 	// commands that ignore the interrupt and keep writing: nothing of them after Cancel has returned; with and
